@@ -92,13 +92,13 @@ Print Assumptions C01_not_equal_null_in_row_filter_refuted.
 Theorem C01_null_operand_of_and_or_refuted : differ_with_causes fl_sqlite [3]%nat.
 Proof. exact w_logic_refuted. Qed.
 Print Assumptions C01_null_operand_of_and_or_refuted.
-(* maximum / minimum / fmax / fmin with a null operand: the SQL templates were exchanged until /repo 9699787 (then a divergence of
-   this property); now Pandas and SQLite agree there -- the cause is met, no convention of SQLite matters (Examples below) --
-   but the cause stays in the hypothesis of the agreement theorems, which hold for EVERY flavour: for the conventions of Polars
-   the statement is still false on that input *)
-Theorem C01_null_operand_of_maximum_minimum_refuted_for_polars_conventions : differ_with_causes fl_polars [4; 4; 4]%nat.
-Proof. exact w_minmax_polars_refuted. Qed.
-Print Assumptions C01_null_operand_of_maximum_minimum_refuted_for_polars_conventions.
+(* maximum / minimum / fmax / fmin with a null operand: the SQL templates were exchanged until /repo 9699787 and Polars ignored the
+   null until /repo 73dee51 (then divergences); now Pandas, SQLite, PostgreSQL and Polars agree there -- the cause is met, no
+   convention matters (Examples below).  The cause stays in the hypothesis of the agreement theorems because they hold for EVERY
+   flavour record: for a hypothetical backend that ignored the null operand the statement is false on that input *)
+Theorem C01_null_operand_of_maximum_minimum_refuted_for_some_conventions : exists fl : flavor, differ_with_causes fl [4; 4; 4]%nat.
+Proof. exact w_minmax_some_flavour_refuted. Qed.
+Print Assumptions C01_null_operand_of_maximum_minimum_refuted_for_some_conventions.
 (* the property's own accepted convention: sum over a group with no non-null value *)
 Theorem C01_sum_over_group_without_values_refuted : differ_with_causes fl_sqlite [6]%nat.
 Proof. exact w_empty_agg_refuted. Qed.
@@ -128,6 +128,10 @@ Print Assumptions C01_row_order_over_null_sort_key_refuted.
    over tables with nulls and duplicate rows *)
 Example C01_maximum_minimum_with_null_now_agree : verdict fl_sqlite w_minmax = ([4; 4; 4]%nat, []%nat, true).
 Proof. exact w_minmax_ok. Qed.
+Example C01_maximum_minimum_with_null_postgres_agrees : verdict fl_postgres w_minmax = ([4; 4; 4]%nat, []%nat, true).
+Proof. exact w_minmax_postgres. Qed.
+Example C01_maximum_minimum_with_null_polars_agrees : verdict fl_polars w_minmax = ([4; 4; 4]%nat, []%nat, true).
+Proof. exact w_minmax_polars. Qed.
 Example C01_fmax_fmin_with_null_now_agree : verdict fl_sqlite w_fminmax = ([5; 5; 5]%nat, []%nat, true).
 Proof. exact w_fminmax_ok. Qed.
 Example C01_insensitive_example : insensitive nv_pipeline nv_env = true.
